@@ -1,4 +1,5 @@
 """C18 Output is invariant under meaning-preserving changes of surface syntax."""
+import json
 import random
 
 from harness import runner, tlc
@@ -231,16 +232,29 @@ def run(chk):
                 'line / joined to the previous statement (label in front of its statement, consecutive instructions on one line) / '
                 'blank line before) and checks RoundTrip: Tokenize(Render(P, c)) = P. The harness spells each rendering and the real '
                 'assembler must produce Bytes(P), the same for every rendering of P. Instances: all 108 styles for single '
-                'statements and pairs (sampled in the quick tier), a 10-style covering subset for three statements. '
+                'statements, 42 styles for pairs, a 10-style covering subset for three statements, preprocessor statements among ordinary ones in 16 styles; the thorough tier replays 150,000 instead of 12,000 renderings per instance and adds programs of four and five statements sampled by the simulator. '
                 'Non-trivial = distinct rendered text. The repository programs are also rewritten (comments stripped, blanks changed to tabs / widened / appended, blank and comment lines added, mnemonics upper-cased, labels moved onto their own line / in front of the following instruction; lines with quote characters untouched) and must assemble to the same image under their own ISAs.')
     chk.assumptions = ['only the rewrites the statement lists are applied: case of mnemonics and registers (not labels, not directives), blanks between tokens, blank lines, comments, label placement, joining of instructions (not directives)']
     plan = ([('pre-sep-2', 'StmtsP', 'StylesSep', 2), ('all-styles-1', 'StmtsA', 'StylesAll', 1), ('half-styles-2', 'StmtsA', 'StylesHalf', 2), ('core-styles-3', 'StmtsB', 'StylesCore', 3)] if quick
-            else [('pre-sep-3', 'StmtsP', 'StylesSep', 3), ('all-styles-2', 'StmtsA', 'StylesAll', 2), ('core-styles-3', 'StmtsA', 'StylesCore', 3), ('core-styles-4', 'StmtsB', 'StylesCore', 4)])
-    for tag, stmts, styles, ml in plan:
+            # (17 statements x 108 styles squared, or 11 x 10 to the fourth power, are millions to hundreds of millions of renderings - more than
+            # fits in memory: beyond the exhaustive instances the longer programs are sampled by TLC's simulator, which evaluates Emit on every
+            # successor it generates)
+            else [('pre-sep-2', 'StmtsP', 'StylesSep', 2), ('pre-sep-4-simulated', 'StmtsP', 'StylesSep', 4, 'num=200'), ('all-styles-1', 'StmtsA', 'StylesAll', 1),
+                  ('half-styles-2', 'StmtsA', 'StylesHalf', 2), ('core-styles-3', 'StmtsB', 'StylesCore', 3), ('core-styles-5-simulated', 'StmtsA', 'StylesCore', 5, 'num=150')])
+    for entry in plan:
+        tag, stmts, styles, ml = entry[:4]
+        sim = entry[4] if len(entry) > 4 else None
         res = tlc.run_tlc('MC_Lexer', f'SPECIFICATION Spec\nCONSTANTS\n  Stmts <- {stmts}\n  Styles <- {styles}\n  MaxLen = {ml}\n'
-                          + ''.join(f'INVARIANT {i}\n' for i in INV), workers=16, timeout=3000)
+                          + ''.join(f'INVARIANT {i}\n' for i in INV), workers=16 if sim is None else 1, timeout=3000, simulate=sim, depth=(ml + 2) if sim else None,
+                          seed=chk.seed if sim else None)
         chk.add_tlc(res)
         emits = res.emits
+        if sim:
+            uniq = {}
+            for e in emits:
+                uniq.setdefault(json.dumps(e['items']), e)
+            emits = list(uniq.values())
+            res.emits = emits
         cap = 12000 if quick else 150000
         if len(emits) > cap:
             emits = rng.sample(emits, cap)
